@@ -2,7 +2,9 @@
 package bill
 
 import (
+	"github.com/invopop/gobl/cbc"
 	"github.com/invopop/gobl/schema"
+	"github.com/invopop/gobl/tax"
 )
 
 func init() {
@@ -32,3 +34,16 @@ const (
 	ShortSchemaInvoice  = "bill/invoice"
 	ShortSchemaPayment  = "bill/payment"
 )
+
+// supportedTagsFor provides the tag keys that the regime and the addons offer
+// for documents of the given schema.
+func supportedTagsFor(schema string, r *tax.RegimeDef, addons []*tax.AddonDef) []cbc.Key {
+	var ts *tax.TagSet
+	if r != nil {
+		ts = ts.Merge(tax.TagSetForSchema(r.Tags, schema))
+	}
+	for _, a := range addons {
+		ts = ts.Merge(tax.TagSetForSchema(a.Tags, schema))
+	}
+	return ts.Keys()
+}
